@@ -338,7 +338,7 @@ func VerifC05YRatDiv(fn int, xk int, xd int, xn int, yi int) {
 		vrt.Carve("C05-y-ratio-division-quotient-bignum", zzC05Fits(wq))
 		vrt.Assert(isFix == zzC05Fits(wq), "quotient is not canonical (fixnum iff it fits)")
 	}
-	vrt.Carve("C05-y-ratio-division-remainder-noncanonical", wr.Sign() != 0 && new(big.Int).Rem(wantR.n, wantR.d).Sign() == 0)
+	vrt.Carve("C05-y-ratio-division-remainder-noncanonical", (wr.Sign() != 0 || fn == 2 || fn == 3) && new(big.Int).Rem(wantR.n, wantR.d).Sign() == 0)
 	lowest, intIsInt, fixIffFits := zzC05XCanonical(ro)
 	vrt.Assert(lowest, "remainder is not in lowest terms")
 	vrt.Assert(intIsInt, "integer-valued remainder is a ratio")
@@ -387,6 +387,7 @@ func VerifC05YIncf(fn int, pk int, pd int, dk int, dd int, form int) {
 	want := zzC05QOp(fn, qp, qd)
 	wantInt := new(big.Int).Rem(want.n, want.d).Sign() == 0
 	vrt.Carve("C05-bignum-with-ratio-goes-float", form != 2 && ((pk == 1 && dk == 2) || (pk == 2 && dk == 1)))
+	vrt.Carve("C05-y-decf-most-negative-fixnum-delta", fn == 1 && dk == 0 && form != 2 && qd.n.Cmp(zzC05Min64) == 0)
 	scope := slip.NewScope()
 	name := slip.Symbol([]string{"incf", "decf"}[fn])
 	var f slip.Object
@@ -467,7 +468,7 @@ func zzC05YExactRats() []zzC05Q {
 	return []zzC05Q{
 		{b(0), one}, {b(1), one}, {b(-5), one}, {p(53), one}, {new(big.Int).Add(p(53), b(2)), one}, {new(big.Int).Neg(p(63)), one}, // 0..5
 		{p(64), one}, {zzC05YPow(b(10), 20), one}, {p(100), one}, // 6..8
-		{b(1), b(2)}, {b(-3), b(4)}, {new(big.Int).Add(p(52), one), p(60)}, {b(5), p(70)}, {new(big.Int).Neg(new(big.Int).Add(p(64), p(12))), p(3)}, // 9..13
+		{b(1), b(2)}, {b(-3), b(4)}, {new(big.Int).Add(p(52), one), p(60)}, {b(5), p(70)}, {new(big.Int).Neg(new(big.Int).Add(p(40), one)), p(3)}, // 9..13
 		{b(1 << 24), one}, {b(-7), b(8)}, // 14 15 (exact in single-float too)
 	}
 }
@@ -484,7 +485,7 @@ func VerifC05YConv(fn int, i int) {
 		if fn >= 2 {
 			f = float64(float32(f))
 			fo = slip.SingleFloat(f)
-			vrt.Assume(!math.IsInf(f, 0))
+			vrt.Assume(f <= math.MaxFloat32 && f >= -math.MaxFloat32)
 		}
 		exact := zzC05YExact(f)
 		out := zzC05Call([]string{"rational", "rationalize"}[fn%2], fo)
@@ -502,6 +503,8 @@ func VerifC05YConv(fn int, i int) {
 		} else {
 			back = zzC05Call("float", out.one)
 		}
+		// 1/3 needs 16 significant decimal digits, 5e-324 is below the 1e-18 the decimal loop reaches
+		vrt.Carve("C05-y-rationalize-not-within-float-accuracy", (fn == 1 && (i == 10 || i == 13)) || (fn == 3 && i == 7))
 		vrt.Assert(back.class == 0, "float of the rational signalled")
 		bf, okf := zzC05YFloatOf(back.one)
 		vrt.Assert(okf && bf == f, "converting the rational back does not give the same float")
@@ -529,6 +532,6 @@ func VerifC05YConv(fn int, i int) {
 	vrt.Assert(out.class == 0, "conversion of a rational to a float signalled")
 	f, ok := zzC05YFloatOf(out.one)
 	vrt.Assert(ok, "conversion result is not a float")
-	vrt.Assert(!math.IsInf(f, 0) && !math.IsNaN(f) && zzC05QCmp(zzC05YExact(f), q) == 0, "an exactly representable rational does not convert to the float of the same value")
+	vrt.Assert(f == f && f <= math.MaxFloat64 && f >= -math.MaxFloat64 && zzC05QCmp(zzC05YExact(f), q) == 0, "an exactly representable rational does not convert to the float of the same value")
 	vrt.Assert(zzC05XRatSame(qo, q), "the operand was altered")
 }
